@@ -78,6 +78,9 @@ class Project:
         # surroundings of the cond PROCESS (environment variables that only change rendering, CPU affinity)
         self.proc_env = dict(hostile.get("env") or {})
         self.proc = {"one_cpu": True, "cpu_index": hostile.get("cpu_index", 0)} if hostile.get("one_cpu") else None
+        for k0 in ("ignore_sigchld", "block_sigchld"):
+            if hostile.get(k0):
+                self.proc = dict(self.proc or {}, **{k0: True})
         self._pos = 0
 
     def write_scn(self):
@@ -133,6 +136,11 @@ def hostile_choice(rng, p_root=0.25, p_link=0.2, p_outer=0.15, p_env=0.2, p_cpu=
     if rng.random() < p_cpu:
         h["one_cpu"] = True
         h["cpu_index"] = rng.randrange(64)
+    r0 = rng.random()
+    if r0 < 0.07:
+        h["ignore_sigchld"] = True    # inherited disposition of a daemon-like parent
+    elif r0 < 0.12:
+        h["block_sigchld"] = True     # inherited signal mask of a supervisor
     if rng.random() < 0.12:
         h["pkgdir_symlink"] = True
         h["pkg_index"] = rng.randrange(16)
